@@ -9,7 +9,7 @@
 use crate::exec::*;
 use crate::model::*;
 use crate::obs::Violation;
-use crate::ops::Format;
+use crate::ops::{Format, Op};
 use crate::rng::Rng;
 use crate::world::{RunStats, World};
 use stam::*;
@@ -168,6 +168,36 @@ pub fn validation_phase(world: &mut World, stats: &mut RunStats, stepno: usize) 
     };
     check_unchanged(&world.store, "after_protect", &mut out);
     if !out.is_empty() {
+        return out;
+    }
+    // (1b) in one run out of four the save and reload goes through STAM CSV instead (the validation data travels as
+    // ordinary data there, with its value written as text): still valid, and nothing else is decided on this route
+    if (stepno + live.len()) % 4 == 0 {
+        let v = world.step(&Op::Restart { format: Format::Csv }, stats, stepno);
+        if !v.is_empty() {
+            // what else the CSV round trip broke is C15's business; whether validation still answers is decided here
+            stats.probe("c18_csv_roundtrip_with_foreign_violation");
+        }
+        stats.probe("c18_csv_route");
+        let m2 = world.model.clone();
+        for (a, ann) in m2.live_annotations() {
+            let joined = joined_text(&m2, a);
+            let exp = expected_validity(&m2, a, &joined);
+            let Some(item) = world.store.annotation(AnnotationHandle::new(ann.handle)) else { continue };
+            match catch(|| item.validate_text()) {
+                Ok(got) => {
+                    if got != exp {
+                        out.push(Violation::new(
+                            "C18",
+                            "mismatch",
+                            "validate_text.after_csv_reload",
+                            format!("step {}: annotation {} (text {:?}): expected {:?} got {:?}", stepno, ann.handle, joined, exp, got),
+                        ));
+                    }
+                }
+                Err(p) => out.push(Violation::new("C18", "panic", "validate_text.after_csv_reload", format!("step {}: {}", stepno, normalise_panic(&p)))),
+            }
+        }
         return out;
     }
     // (2) save with stand-off .txt resources and reload: still valid
